@@ -236,7 +236,7 @@ func init() {
 	core.Register(&core.Prop{
 		ID:    "C14",
 		Level: "model_checking",
-		Rule:  "scenarios of 2 (thorough: also 3) threads, each either NewSchema or NewTransform + read to EOF over the same or different Schemas (all seven formats, javascript, javascript_with_context on record and ancestors, templates, copy, 2-record inputs, multi-line fixed-length envelopes; navsteps scenarios add a scheduling point at every xpath navigator move, bound 1, thorough 2); every schedule with at most 2 preemptions (thorough: 3 for three of the 2-thread scenarios) under the cooperative scheduler with a scheduling point before and after every node-pool / VM-pool operation, at every atomic add and around every LoadingCache lookup/load/add; all process-wide state is reset before every schedule; every thread's transcript must equal its solo transcript, no panic, no deadlock; states = scheduling points visited, transitions = thread steps; plus a free-running pass of all jobs on shared Schema objects under the race detector with GOMAXPROCS 1, 2, 16; the free-running pass starts with a cold phase: a new Schema object used for the first time by 4 goroutines at once",
+		Rule:  "scenarios of 2 (thorough: also 3) threads, each either NewSchema or NewTransform + read to EOF over the same or different Schemas (all seven formats, javascript, javascript_with_context on record and ancestors, templates, copy, 2-record inputs, multi-line fixed-length envelopes; navsteps scenarios add a scheduling point at every xpath navigator move, bound 1, thorough 2); every schedule with at most 2 preemptions (thorough: 3 for three of the 2-thread scenarios) under the cooperative scheduler with a scheduling point before and after every node-pool / VM-pool operation, at every atomic add and around every LoadingCache lookup/load/add; all process-wide state is reset before every schedule; every thread's transcript must equal its solo transcript, no panic, no deadlock; states = scheduling points visited, transitions = thread steps; plus a free-running pass of all jobs on shared Schema objects under the race detector with GOMAXPROCS 1, 2, 16; the free-running pass starts with a cold phase: a new Schema object used for the first time by 4 goroutines at once; a second free-running scenario creates schemas (builtin format, caller-supplied format, a rejected one) from 8 goroutines through ONE shared Extension whose CustomFileFormats slice has spare capacity",
 		Assumptions: []string{
 			"only interleavings at the hooked operations are explored; unsynchronised plain memory accesses are the race detector's job (free-running pass, not exhaustive over schedules)",
 			"goja VMs, encoding/* decoders and the hashicorp LRU are treated as atomic between scheduling points",
@@ -312,7 +312,7 @@ func init() {
 				}
 			}
 			if c.Shard == 0 {
-				for _, scn := range []string{"transforms"} {
+				for _, scn := range []string{"transforms", "newschema"} {
 					if msg := runRaceBinary(scn); msg != "" {
 						if strings.HasPrefix(msg, "skip:") {
 							c.Note("free-running -race pass not run: " + msg)
